@@ -50,6 +50,7 @@ def threaded_scenario(draw) -> Dict[str, Any]:
             op['spawn'] = draw(st.sampled_from([0, 0, 0, 1, 2]))
             # the listener closes the instance from its first callback ("found what I was looking for, done")
             op['close_here'] = draw(st.sampled_from([False] * 7 + [True]))
+            op['direct'] = draw(st.sampled_from([False, False, True]))
         elif kind == 'announce':
             op['type'] = draw(st.integers(0, 1))
             op['n'] = draw(st.integers(1, 4))
@@ -62,6 +63,15 @@ def threaded_scenario(draw) -> Dict[str, Any]:
         elif kind == 'sleep':
             op['ms'] = draw(st.sampled_from([1, 50, 200, 500, 1300]))
         ops.append(op)
+    if draw(st.integers(0, 6)) == 0:
+        # the README's usage: the application creates ServiceBrowser objects itself and, when done, only closes the instance
+        ops = [{'op': 'browser', 'type': 1, 'slow_ms': draw(st.sampled_from([0, 100])), 'spawn': 0, 'close_here': False, 'direct': True}] + \
+              [{'op': 'announce', 'type': 1, 'n': draw(st.integers(1, 4))} for _ in range(draw(st.integers(1, 3)))]
+        if draw(st.booleans()):
+            ops.insert(0, {'op': 'register', 'svc': 0, 'bg': False})
+        return {'kind': 'threaded', 'jitter': draw(st.integers(0, 10**6)), 'ops': ops,
+                'close_after_ms': draw(st.sampled_from([0, 50, 300])), 'how': draw(st.sampled_from(['close', 'with'])),
+                'post_traffic': draw(st.integers(0, 2))}
     if draw(st.integers(0, 7)) == 0:
         # the application closes the instance from inside a ServiceBrowser callback (a non-loop thread like any other)
         ops = [{'op': 'register', 'svc': 0, 'bg': False}] if draw(st.booleans()) else []
@@ -262,6 +272,7 @@ def _check_threaded(case: Dict[str, Any]) -> Dict[str, Any]:
     listeners: List[ThreadListener] = []
     registered: List[int] = []      # services whose blocking register_service() returned (and were not unregistered)
     unregistered_ks: set = set()
+    direct_browsers: List[Any] = []
     infos: Dict[int, Any] = {}
     announced: List[str] = []
     threads_before = set(threading.enumerate())
@@ -322,8 +333,15 @@ def _check_threaded(case: Dict[str, Any]) -> Dict[str, Any]:
                 if op.get('close_here'):
                     lst.closer = lambda g0: do_close('callback', g0)
                 listeners.append(lst)
-                zc.add_service_listener(TYPES[op['type']], lst)
-                browser_threads.append(zc.browsers[lst])
+                if op.get('direct'):
+                    # the README's way: the application creates the ServiceBrowser itself and only ever closes the instance
+                    from zeroconf import ServiceBrowser
+
+                    browser_threads.append(ServiceBrowser(zc, TYPES[op['type']], listener=lst))
+                    direct_browsers.append(browser_threads[-1])
+                else:
+                    zc.add_service_listener(TYPES[op['type']], lst)
+                    browser_threads.append(zc.browsers[lst])
             elif kind == 'announce':
                 names = [f'peer{i}x{k}.{TYPES[op["type"]]}' for k in range(op['n'])]
                 announced.extend(n for n in names if n.endswith(TYPES[0]))
@@ -456,6 +474,8 @@ def _check_threaded(case: Dict[str, Any]) -> Dict[str, Any]:
         classes.append('threaded-close-with-queued-answers')
     if listeners:
         classes.append('threaded-close-with-thread-browsers')
+    if direct_browsers:
+        classes.append('threaded-ServiceBrowser-created-by-the-application-itself')
     if C.get('who') == 'callback':
         classes.append('threaded-close-called-from-a-browser-callback')
     if any(l.spawn_outcomes for l in listeners):
